@@ -694,7 +694,14 @@ class Props(Family):
         a = copy.deepcopy(w)
         a['extras'] = {'visleafs': [copy.deepcopy(a['visleafs'][1])]}
         a['props']['props'][1]['leafs'] = [['x', 0], 0]
-        return [('dangling_leaf', a)]
+        out = [('dangling_leaf', a)]
+        fs = G.prop_fields(self.ver)
+        if 'scale1' in fs or 'scale3' in fs:
+            b = copy.deepcopy(w)          # StaticProp.scaling may be a plain float
+            b['props']['props'][0]['scaling'] = [1.5, 1.5, 1.5]
+            b['props']['props'][0]['scaling_is_float'] = True
+            out.append(('float_scaling', b))
+        return out
 
 
 class DetailProps(Family):
@@ -727,6 +734,15 @@ class DetailProps(Family):
                 ('shape_only', {'detail_props': [copy.deepcopy(src[3])]})]
 
 
+class Pakfile(Family):
+    name, main, check, max_n = 'pakfile', 'pakfile', ['pakfile'], 3
+
+    def base(self, layout, n):
+        files = [['materials/maps/x/c0_0_0.vmt', b'"LightmappedGeneric"\n{\n}\n'.hex()], ['cfg/a b.txt', bytes(range(256)).hex()],
+                 ['empty.bin', '']]
+        return {'pakfile': files[:n]}
+
+
 # entity lump ------------------------------------------------------------------------------------------------
 
 ENT_VALUES = ['', 'a', ' ', 'a b', '1 2 3', 'a,b', 'a,b,c,d', 'a,b,c,d,e', 'a,b,c,1,x', 'a,b,,,', '"', 'say "hi"', '\\', 'a\\nb',
@@ -755,7 +771,7 @@ class Ents(Family):
 
 
 FAMILIES: list = [Planes(), Vertexes(), Textures(), TexInfo(), SurfEdges(), Primitives(), Faces('faces'), Faces('orig_faces'),
-                  Faces('hdr_faces'), Brushes(), Leafs(), Nodes(), Water(), BModels(), Cubemaps(), Overlays(), DetailProps(), Ents()]
+                  Faces('hdr_faces'), Brushes(), Leafs(), Nodes(), Water(), BModels(), Cubemaps(), Overlays(), DetailProps(), Pakfile(), Ents()]
 FAMILIES += [Props(v.name) for v in B.StaticPropVersion if v.name not in ('UNKNOWN', 'DEFAULT')]
 FAM = {f.name: f for f in FAMILIES}
 
@@ -867,6 +883,9 @@ def run_case(acc: core.Acc, case: dict) -> None:
     stage = 'construct'
     try:
         G.assign_views(bsp, world)
+        if 'props' in world:
+            for rec in world['props']['props']:
+                rec.pop('scaling_is_float', None)      # builder hint, not content
         stage = 'save'
         with G.quiet():
             bsp.save(out)
